@@ -4,4 +4,4 @@ package dilithium
 
 // No-op counterpart of the verification hook (see verif_on.go).
 
-func verifSignEvent(exit int, nonce uint16, z *polyVecL, w0, h *polyVecK, hints uint) {}
+func verifSignEvent(exit int, nonce uint16, c []uint8, z *polyVecL, w0, h *polyVecK, hints uint) {}
